@@ -31,6 +31,9 @@ G = [DEFAULT, I("http://a/g"), I("http://a/g")]
 S4 = [(*t, g) for t, g in zip(S3, G)]
 S4B = [(*t, g) for t, g in zip(S3B, [I("http://b#g"), DEFAULT])]
 PRESET = (8, 3, 1)
+# (other strings than S3 in the same table slots, each referred to again later)
+SDB = [(I("http://c/z"), I("http://c/w"), I("http://c/v")), (I("http://c/z"), I("http://c/w"), L("2")),
+       (I("http://c/u"), I("http://c/z"), I("http://c/w"))]
 
 
 def _opts(cls, stream_name: str = ""):
@@ -122,6 +125,12 @@ def fixed_stream(cls: str, seq) -> bytes:
                                                 rdf_star=False))
 
 
+def default_stream(seq) -> bytes:
+    """Written with the library's default (large) table sizes, one statement per frame."""
+    return DR.g_write(seq, "triple", DR.make_options("triple", (4000, 150, 32), 1, True,
+                                                     generalized=False, rdf_star=False))
+
+
 def step_workloads() -> dict:
     d3 = fixed_stream("triple", S3)
     d4 = fixed_stream("quad", S4)
@@ -140,6 +149,9 @@ def step_workloads() -> dict:
         "parse-rdflib-noncanonical-2": w_parse("rdflib", "flat", fixed_stream("triple", NC3B)),
         "ser-shared-opts-1": w_serialize("generic", "triple", S3, "shared"),
         "ser-shared-opts-2": w_serialize("generic", "triple", S3B, "shared"),
+        # two streams with the default 4000/150/32 tables whose slots hold different strings
+        "parse-generic-default-a": w_parse("generic", "flat", default_stream(S3)),
+        "parse-rdflib-default-b": w_parse("rdflib", "flat", default_stream(SDB)),
         "parse-generic-flat": w_parse("generic", "flat", d3),
         "parse-generic-flat-g": w_parse("generic", "flat", dg),
         # two GRAPHS streams with identical options but different graphs, same integration
@@ -462,6 +474,20 @@ def _probe_thunks():
     for api in ("generic", "rdflib"):
         for cls in ("triple", "quad"):
             yield f"{api}-{cls}-evicting", evict(api, cls)
+    def explicit_flow(cls):
+        def thunk():
+            # the flow is given as an object built without a logical type of its own
+            from pyjelly.serialize import flows  # noqa: PLC0415
+
+            flow = flows.GraphsFrameFlow() if cls == "triple" else flows.DatasetsFrameFlow()
+            opts = DR.make_options(cls, PRESET, 250, True, 0, generalized=False, rdf_star=False,
+                                   flow=flow)
+            seq = S3 if cls == "triple" else S4
+            return hashlib.sha256(DR.g_write(seq, cls, opts, "stream_frames_gen")).hexdigest()
+        return thunk
+
+    for cls in ("triple", "quad"):
+        yield f"generic-{cls}-explicit-flow", explicit_flow(cls)
     yield "generic-empty-sink", empty_sink
     for api in ("generic", "rdflib"):
         yield f"{api}-ns-parse", ns_parse(api)
@@ -561,7 +587,14 @@ def history_actions() -> dict:
             stream.flow.to_stream_frame()
         return act
 
+    def subtype_stream():
+        """A stream with a logical sub-type is merely constructed."""
+        for cls, lt in (("triple", 13), ("quad", 114), ("quad", 14)):
+            DR.g_stream(cls, DR.make_options(cls, PRESET, 250, True, lt, generalized=False,
+                                             rdf_star=False))
+
     return {
+        "subtype-stream": subtype_stream,
         "ns-grouped-generic": ns_grouped("generic"),
         "ns-grouped-rdflib": ns_grouped("rdflib"),
         "ns-manual-generic": ns_manual("generic"),
